@@ -248,6 +248,7 @@ class Kernel:
         return t
 
     tracefunc = None
+    custom_pick = None     # policy "custom": fn(candidates, last) -> task (decides via Choices)
 
     def _handover(self, t):
         """Called in task thread t: give the baton to the scheduler and wait for it."""
@@ -283,6 +284,8 @@ class Kernel:
         if len(cands) == 1:
             return cands[0]
         pol = self.policy
+        if pol == "custom":
+            return self.custom_pick(cands, last)
         if pol == "sticky":
             if last in cands and not ch.bool("sw", 0.15):
                 return last
